@@ -226,6 +226,16 @@ Next == \/ phase = 0 /\ tbl' \in Tables /\ phase' = 1
         \/ phase = 1 /\ phase' = 2 /\ UNCHANGED tbl
 Spec == Init /\ [][Next]_vars
 
+\* C17 at model level: on the common fragment the implementation-shaped computeAllowedMethods lists exactly the
+\* methods Layer A says are routable at the URL (no legal outcome is 404 or 405)
+RoutableA(T, url) ==
+  {m \in MethodsOf(T) :
+     \A o \in LegalSet("curly", T, Rq(m, url, "", "", 0, "", <<>>)) : ~(o.k = "err" /\ o.st \in {404, 405})}
+OptionsTruthful(T) ==
+  (Mode = "agree" /\ CommonFragment(T)) =>
+     \A url \in {p \in DerivedPaths(T) : Canon(p)} :
+        AllowedMethodsImpl(T, url, CurlySelected(T, url)) = RoutableA(T, url)
+
 \* what Layer B predicts the real CurlyRouter answers (compared with the real answers by the
 \* conformance run: "model drift")
 PredOf(co) == SetToSeq({<<o.k, o.ws, o.rt, o.st>> : o \in co})
@@ -239,6 +249,7 @@ Check ==
                       jo == JsrOutcomes(T, rseq[i]) IN
                   [ok |-> Theorems(tbl, T, TR, rseq[i], co, jo), pred |-> PredOf(co), predj |-> PredOf(jo)]]
     IN /\ DominanceStrict(T)
+       /\ OptionsTruthful(T)
        /\ \A i \in 1..Len(rseq) : res[i].ok
        /\ PrintT("CASE " \o ToJson([services |-> tbl, reqs |-> rseq,
                                      pred |-> [i \in 1..Len(rseq) |-> res[i].pred],
